@@ -527,14 +527,14 @@ var subText = vk.Register("text", checkText)
 // ---------------------------------------------------------------- generators: random trees
 
 func TestPropTrees(t *testing.T) {
-	vk.Rapid(t, subRT, vk.N(2500, 12000), func(t *rapid.T) RTCase {
+	vk.Rapid(t, subRT, vk.N(2500, 20000), func(t *rapid.T) RTCase {
 		return RTCase{Tree: genFile(t, 30+vk.Uniform(t, 60)), L: genLayout(t)}
 	})
 }
 
 // Literal-heavy files: every spelling family, one literal per statement.
 func TestPropLiterals(t *testing.T) {
-	vk.Rapid(t, subRT, vk.N(1500, 8000), func(t *rapid.T) RTCase {
+	vk.Rapid(t, subRT, vk.N(1500, 12000), func(t *rapid.T) RTCase {
 		g := &gen{t: t, budget: 1000}
 		f := &N{K: "file"}
 		for k := 1 + vk.Uniform(t, 5); k > 0; k-- {
@@ -770,11 +770,11 @@ func chain(t *rapid.T) TextCase {
 }
 
 func TestPropChains(t *testing.T) {
-	vk.Rapid(t, subText, vk.N(300, 1500), chain)
+	vk.Rapid(t, subText, vk.N(300, 3000), chain)
 }
 
 func TestPropNearMiss(t *testing.T) {
-	vk.Rapid(t, subText, vk.N(4000, 25000), nearMiss)
+	vk.Rapid(t, subText, vk.N(4000, 40000), nearMiss)
 }
 
 // ---------------------------------------------------------------- generators: listed texts
